@@ -52,7 +52,7 @@ def _make_recorder():
             return self
 
         def predict(self, X):
-            return self.mean_ + 0.25 * self.k_ + 0.5 * numpy.asarray(X)[:, 0]
+            return self.mean_ + 0.25 * self.k_ + 0.5 * numpy.asarray(X, dtype=numpy.float64)[:, 0]
     return Recorder
 
 
@@ -75,6 +75,7 @@ def run_case(case):
     y = 100.0 + numpy.arange(n)
     w = 1000.0 + numpy.arange(n) if case["weights"] else None
     P = numpy.array([[0.0], [1.5], [-2.0], [7.0]])
+    Ps = [P, numpy.array([[0], [1], [-2], [7]], dtype=numpy.int64), P.astype(numpy.float32), numpy.asfortranarray(P)]
     x = alpha * n
     sizes_ok = {int(x + 0.5), int(round(x))}
     seen_rows = set()
@@ -83,6 +84,7 @@ def run_case(case):
     ncond = "n=1" if n == 1 else "n>=2"
     desc0 = "n=%d alpha=%s n_estimators=%d weights=%s" % (n, alpha, m, case["weights"])
     for g in range(S):
+        ncond = "n=1" if n == 1 else "n>=2"
         numpy.random.seed(g)
         log = _Log()
         desc = "%s numpy.random.seed(%d)" % (desc0, g)
@@ -114,15 +116,18 @@ def run_case(case):
                 bad("drawn row is not a training row", ncond, "%r %s" % (idx.tolist(), desc))
             seen_rows.update(int(v) for v in idx)
             seen_vecs.add(tuple(int(v) for v in idx))
-        # aggregation
+        # aggregation (query batches of several dtypes: the individual predictions are float64 whatever the batch is)
+        Pq = Ps[g % len(Ps)]
+        qcond = "%s,query dtype %s" % (ncond, Pq.dtype)
         try:
-            pa = numpy.asarray(model.predict_all(P))
-            pm = numpy.asarray(model.predict(P))
-            ps = numpy.asarray(model.predict_sorted(P))
+            pa = numpy.asarray(model.predict_all(Pq))
+            pm = numpy.asarray(model.predict(Pq))
+            ps = numpy.asarray(model.predict_sorted(Pq))
         except Exception as e:
-            bad("predict raises %s" % type(e).__name__, ncond, "%s %s" % (str(e)[:200], desc))
+            bad("predict raises %s" % type(e).__name__, qcond, "%s %s" % (str(e)[:200], desc))
             continue
-        exp_all = numpy.column_stack([est.predict(P) for est in model.estimators_])
+        exp_all = numpy.column_stack([est.predict(Pq) for est in model.estimators_])
+        ncond_saved, ncond = ncond, qcond
         if pa.shape != (len(P), m) or not numpy.array_equal(pa, exp_all):
             bad("predict_all != individual predictions", ncond, desc)
             continue
@@ -132,6 +137,7 @@ def run_case(case):
             bad("predict_sorted != row-wise sorted predictions", ncond, desc)
         elif ((pm < ps[:, 0] - 1e-12) | (pm > ps[:, -1] + 1e-12)).any():
             bad("predict outside [min, max]", ncond, desc)
+        ncond = ncond_saved
     size = int(x + 0.5)
     if not viol or all("raises" not in v["sig"] for v in viol):
         if size >= 1 and seen_rows != set(range(n)):
